@@ -2,6 +2,9 @@ package main
 
 import (
 	"fmt"
+	"math"
+	"os"
+	"path/filepath"
 	"strings"
 	"time"
 
@@ -52,6 +55,60 @@ func runC06(c *hc.Ctx) error {
 	if !c.Quick() {
 		chainStream(c, 5, 9, 0, true, false)
 	}
+	// real grids whose extent is not a round number of pixels (WebMercatorQuad, LAEA, NZTM): small polygons, valid or not,
+	// within a fraction of a pixel of the borders between the quadrants of levels 1-3 (the middle of the extent and its
+	// quarters), on a 1/64-pixel lattice: where the integer pixel grid and a float-derived quantity can part company
+	for k := 0; k < c.N(240, 6000); k++ {
+		name := []string{"WebMercatorQuad", "EuropeanETRS89_LAEAQuad", "NZTM2000Quad", "NetherlandsRDNewQuad"}[k%4]
+		t, err := loadSet(name)
+		if err != nil {
+			continue
+		}
+		id := 10 + c.Rng.Intn(9)
+		if id > maxID(t) {
+			id = maxID(t)
+		}
+		g, err := gridFor(name, t, id, false)
+		if err != nil || g.Deep > 32 || g.Res < 64 {
+			continue
+		}
+		size := int64(1) << g.Deep
+		q := int64(1) << (g.Deep - uint(1+c.Rng.Intn(3)))
+		w := Window{G: g, W: 2, Unit: max64(1, g.Res/64)}
+		w.X0 = g.Ext[0] + (1+c.Rng.Int63n(size/q-1))*q*g.Res - g.Res
+		w.Y0 = g.Ext[1] + (1+c.Rng.Int63n(size/q-1))*q*g.Res - g.Res
+		if c.Rng.Intn(2) == 0 {
+			w.Y0 = g.Ext[1] + (size/8+c.Rng.Int63n(size/2))*g.Res
+		}
+		var ring []Pt
+		okRT := true
+		for v := 3 + c.Rng.Intn(5); v > 0; v-- {
+			p := w.randPt(c.Rng)
+			x, ok1 := fixRoundTrip(p[0])
+			y, ok2 := fixRoundTrip(p[1])
+			okRT = okRT && ok1 && ok2
+			ring = append(ring, Pt{x, y})
+		}
+		poly := [][]Pt{ring}
+		if !okRT || !g.inGrid(poly) {
+			continue
+		}
+		ids := []int{id}
+		if c.Rng.Intn(2) == 0 && id >= 2 {
+			ids = append(ids, id-1-c.Rng.Intn(2))
+		}
+		cfg := randCfg(c.Rng)
+		r := runSnap(g, poly, ids, cfg, 20*time.Second)
+		c.Sum.Evaluations++
+		c.Count("real grid, at a border between coarse quadrants: " + name)
+		if r.Panic != "" {
+			c.Violate(hc.Violation{What: "SnapPolygon panicked on an in-grid polygon next to a border between coarse quadrants of a real grid: " + r.Panic, Input: caseJSON(g, poly, ids, cfg, nil), Observed: r.PanicMsg})
+		}
+	}
+	// long rings on many tile matrices at once, again and again: work that is split by ring size or by level (goroutines
+	// per level, per part of a ring) and shares maps or buffers takes the whole process down only now and then.  The case
+	// is written to disk before it runs, so that a fatal runtime error still names its input.
+	manyLevels(c)
 	// tile matrices deeper than level 32 (pixel addresses no longer fit the 32-bit Morton halves)
 	for _, name := range []string{"UPSArcticWGS84Quad", "NZTM2000Quad", "NetherlandsRDNewQuad", "WebMercatorQuad"} {
 		t, err := loadSet(name)
@@ -126,6 +183,52 @@ func f13Attributable(g *Grid, poly [][]Pt, ids []int, r *Result) bool {
 }
 
 const f13What = "kmpDeduplicate records overlapping removal ranges on long periodic chains (a centre passed five or more times): RemoveSequences slices out of bounds and SnapPolygon panics (F13)"
+
+func manyLevels(c *hc.Ctx) {
+	g, err := newSyntheticGrid(4, 16, 0, 0)
+	if err != nil {
+		return
+	}
+	size := int64(1) << g.Deep
+	all := make([]int, g.DeepestID+1)
+	for i := range all {
+		all[i] = i
+	}
+	for k := 0; k < c.N(6, 60); k++ {
+		n := 100 + c.Rng.Intn(400)
+		cx, cy := g.Ext[0]+(size/2)*g.Res, g.Ext[1]+(size/2)*g.Res
+		var ring []Pt
+		for i := 0; i < n; i++ { // a star: the radius alternates, so the routed ring keeps its vertices on every level
+			a := 2 * math.Pi * float64(i) / float64(n)
+			rad := float64((size/8+c.Rng.Int63n(size/4))*g.Res) * (0.6 + 0.4*float64(i%2))
+			ring = append(ring, Pt{cx + int64(rad*math.Cos(a)), cy + int64(rad*math.Sin(a))})
+		}
+		poly := [][]Pt{ring}
+		if !g.inGrid(poly) {
+			continue
+		}
+		cfg := randCfg(c.Rng)
+		cfg.IgnoreOutsideGrid = false
+		in := caseJSON(g, poly, all, cfg, nil)
+		// should the runtime abort the process, this is what it was doing
+		pending := hc.Violation{What: "the process was taken down by a fatal runtime error (e.g. concurrent map writes) while SnapPolygon ran on a ring of 100+ vertices with every tile matrix requested", Input: in, Observed: "see the harness log"}
+		_ = hc.WriteJSON(filepath.Join(c.Out, "violations_partial.json"), append(append([]hc.Violation{}, c.Sum.Violations...), pending))
+		for rep := 0; rep < c.N(40, 200); rep++ {
+			r := runSnap(g, poly, all, cfg, 20*time.Second)
+			c.Sum.Evaluations++
+			if r.Panic != "" {
+				c.Violate(hc.Violation{What: "SnapPolygon panicked on an in-grid ring of 100+ vertices with every tile matrix requested: " + r.Panic, Input: in, Observed: r.PanicMsg})
+				break
+			}
+		}
+		c.Count("ring of 100-500 vertices x all tile matrices, repeated")
+	}
+	if len(c.Sum.Violations) == 0 {
+		_ = os.Remove(filepath.Join(c.Out, "violations_partial.json"))
+	} else {
+		_ = hc.WriteJSON(filepath.Join(c.Out, "violations_partial.json"), c.Sum.Violations)
+	}
+}
 
 func evalC06(c *hc.Ctx, g *Grid, poly [][]Pt, kind string, ids []int, cfg snap.Config) {
 	r := runSnap(g, poly, ids, cfg, 20*time.Second)
